@@ -15,7 +15,7 @@ import time
 import traceback
 
 sys.dont_write_bytecode = True
-HERE = os.path.dirname(os.path.abspath(__file__))
+HERE = os.environ.get('VERIF_SA_DIR') or os.path.dirname(os.path.abspath(__file__))
 sys.path.insert(0, os.path.dirname(HERE))
 
 from sa.core import Program, AnalysisError, REPO   # noqa: E402
@@ -233,6 +233,25 @@ def main(argv=None):
             return replay(args.replay)
         if not args.prop:
             ap.error('property id required')
+        if ',' in args.prop:
+            # batch mode (scratch-tree matrices): one process, one parse
+            worst = 0
+            for prop in args.prop.upper().split(','):
+                try:
+                    code, res, mut = check(prop, args.tier, seed, jobs,
+                                           mutants=not args.no_mutants,
+                                           evidence=not args.no_evidence)
+                except AnalysisError as e:
+                    print('ANALYSIS-ERROR property=%s anchor=%s %s' % (
+                        prop, e.anchor, e.why))
+                    code = 2
+                except Exception:
+                    print('ANALYSIS-ERROR property=%s internal' % prop)
+                    traceback.print_exc()
+                    code = 2
+                print('== %s exit=%d' % (prop, code))
+                worst = max(worst, code)
+            return worst
         prop = args.prop.upper()
         code, res, mut = check(prop, args.tier, seed, jobs,
                                mutants=not args.no_mutants,
